@@ -548,7 +548,7 @@ class Stage:
             # A parameter that sets the horizon moves the time grid: guesses given as expressions of time are evaluated on it
             horizon = [e for e in (self._T, self._t0) if isinstance(e, MX)]
             if horizon and depends_on(vvcat(horizon), vvcat(ca.symvar(MX(parameter)))):
-                self._method.set_initial(self._augmented, self.master._method, self._initial)
+                self._reapply_initial()
 
 
     def set_initial(self, var, value, priority=True):
@@ -600,6 +600,14 @@ class Stage:
                 self._initial.move_to_end(var, last=False)
         for_all_primitives(var, value, action, "First argument to set_initial must be a variable/signal or a simple concatenation of variables/signals")
         if self.master is not None and self.master.is_transcribed:
+            self._reapply_initial()
+
+    def _reapply_initial(self):
+        # The variables of a localized time grid start on the guessed horizon: they move with a new guess for T or t0
+        grid = getattr(self._method, 'time_grid', None)
+        if grid is not None and (grid.localize_t0 or grid.localize_T) and hasattr(self._method, 'set_initial_all'):
+            self._method.set_initial_all(self._augmented, self.master._method, self._initial)
+        else:
             self._method.set_initial(self._augmented, self.master._method, self._initial)
 
     def set_der(self, state, der, scale=1):
